@@ -124,7 +124,10 @@ def lift(op, args):
         return Seq(items, done, tail if done else ())
     if isinstance(outer, Lst):
         cols = [a.items if isinstance(a, Lst) else a for a in args]
-        return Lst([lift(op, row) for row in zip_wrap(cols)])
+        res = Lst([lift(op, row) for row in zip_wrap(cols)])
+        # lists are computed eagerly: one failing element fails the whole
+        # (compare() also accepts the error surfacing per element)
+        return Err(errs(res)) if errs(res) else res
     if isinstance(outer, Opd):
         inner = lift(op, [a.inner if isinstance(a, Opd) else a for a in args])
         return inner if isinstance(inner, Err) else Opd(inner)
